@@ -95,7 +95,9 @@ func ExecuteSubscription(p ExecuteParams) chan *Result {
 			if err := recover(); err != nil {
 				e, ok := err.(error)
 				if !ok {
-					return
+					// a panic with a non-error value is still a failed
+					// subscription: report it instead of closing silently
+					e = fmt.Errorf("%v", err)
 				}
 				resultChannel <- &Result{
 					Errors: gqlerrors.FormatErrors(e),
